@@ -7,6 +7,6 @@ require (
 	github.com/syndtr/goleveldb v0.0.0
 )
 
-require github.com/golang/snappy v0.0.4 // indirect
+require github.com/golang/snappy v0.0.4
 
 replace github.com/syndtr/goleveldb => /repo
